@@ -343,10 +343,10 @@ def pdfProg : List (Draw ν) → PW ν → PW ν × List (List (POp ν))
   | [], w => (w, [])
   | d :: ds, w => ((pdfProg ds (pdfDraw N d w).1).1, (pdfDraw N d w).2 :: (pdfProg ds (pdfDraw N d w).1).2)
 
-/-- `pdfPageWriter.DrawImage` (writer.go 1200-1222): ` q <rect> re W n <quad> W n`, SetAlpha(1.0) — inside the
-q/Q pair —, ` <m> cm /Im<k> Do Q`; `k` = number of image XObjects of the page so far -/
+/-- `pdfPageWriter.DrawImage` (writer.go 1200-1222, since 5295a66): SetAlpha(1.0) BEFORE ` q`, then
+` q <rect> re W n <quad> W n <m> cm /Im<k> Do Q`; `k` = number of image XObjects of the page so far -/
 def pdfImage (k : Nat) : PAct ν := fun w =>
-  ((setAlpha 255 w).1, [POp.q, .clip false, .clip true] ++ (setAlpha (ν := ν) 255 w).2 ++ [.cm, .doIm k, .Q])
+  ((setAlpha 255 w).1, (setAlpha (ν := ν) 255 w).2 ++ [POp.q, .clip false, .clip true, .cm, .doIm k, .Q])
 
 /-- one recorded renderer call on a page: a path draw or an image -/
 inductive Item (ν : Type) where
@@ -705,6 +705,26 @@ def svgDraw (d : Draw ν) : List (SElem ν) :=
     [{ p := .outline d.pid, inStyle := false,
        items := (if d.stroke != .col black then [SItem.fill d.stroke] else []) }]
    else [])
+
+/-- `SVG.getPattern` (svg.go 564-590): a gradient seen for the first time is appended to the table (its id is
+`p<position>`) and its `<defs>` element is written; `st` = (table, gradients newly defined by this call) -/
+def svgRegister (p : Paint) (on : Bool) (st : List Nat × List Nat) : List Nat × List Nat :=
+  match p with
+  | .grad i => if on && !st.1.contains i then (st.1 ++ [i], st.2 ++ [i]) else st
+  | _ => st
+
+/-- head of SVG.RenderPath (svg.go 175-180): the fill gradient if HasFill, the stroke gradient if HasStroke
+(tested BEFORE the stroke width is scaled) -/
+def svgDefs (d : Draw ν) (pats : List Nat) : List Nat × List Nat :=
+  svgRegister d.stroke (d.stroke.has && N.lt N.zero d.width) (svgRegister d.fill d.hasFill (pats, []))
+
+/-- gradient references (`url(#p…)`) an element carries -/
+def itemGrad : SItem ν → Option Nat
+  | .fill (.grad i) => some i
+  | .stroke (.grad i) => some i
+  | _ => none
+
+def elemGrads (e : SElem ν) : List Nat := e.items.filterMap itemGrad
 
 /-! ### SVG interpreter: presentation attributes with the SVG initial values (SVG 1.1 §11.3/11.4) -/
 
